@@ -223,6 +223,20 @@ def rules(ctx):
                 oki = src(gen.iter.args[0]) == src(loop.target) and not gen.ifs
                 ctx.inst('R09.2', sb, n, oki, "assignment built over every position of the candidate" if oki else
                          "the candidate assignment is not built from every position of the product element")
+    if mapname is None and nname is not None:
+        # x = dict(zip(labels, candidate)) with labels = [mapping[i] for i in range(N)] computed before the loop
+        for n in body_assign:
+            v = n.value
+            if isinstance(v, ast.Call) and is_name(v.func, 'dict') and len(v.args) == 1 and isinstance(v.args[0], ast.Call) \
+                    and is_name(v.args[0].func, 'zip') and len(v.args[0].args) == 2 and src(v.args[0].args[1]) == src(loop.target):
+                lab = expand_names(sb.node, v.args[0].args[0])
+                while isinstance(lab, ast.Call) and is_name(lab.func, 'list', 'tuple') and len(lab.args) == 1:
+                    lab = lab.args[0]
+                if isinstance(lab, (ast.ListComp, ast.GeneratorExp)) and len(lab.generators) == 1 and not lab.generators[0].ifs \
+                        and isinstance(lab.elt, ast.Subscript) and src(lab.elt.slice) == src(lab.generators[0].target) \
+                        and src(lab.generators[0].iter) == 'range(%s)' % nname:
+                    mapname = src(lab.elt.value)
+                    ctx.inst('R09.2', sb, n, True, "assignment built over every position of the candidate (labels taken once from the map)")
     if mapname is None or nname is None:
         raise AnalysisError("_solve_bruteforce: candidate construction x = {mapping[i]: v ...} not recognised")
     trys = [n for n in ast.walk(sb.node) if isinstance(n, ast.Try)]
